@@ -16,7 +16,7 @@ tvars == <<acc, supply, used, epoch, ev, l, lk>>
 
 Trace == ndJsonDeserialize(TraceFile)
 
-M_Users      == {"u1", "u2", "u3", "u4", "kc"}
+M_Users      == {"u1", "u2", "u3", "u4", "kc", "self"}   \* "self": the Balance contract's own address (no witness exists)
 M_LockSeq    == <<"l1", "l2", "l3", "l4", "l5", "l6">>
 
 EvOf(r) == Event(r.act, ToSet(r.S), r.a, r.b, r.amt, r.x, r.res, r.ret, r.ntf)
